@@ -24,6 +24,11 @@ def gen(rng, budget, tier):
     yield "c14.script 3 A0,X0,A1,X1,A2,X2,A3,X3"          # logins that never request a shell used to leak their slots
     yield "c14.script 3 A0,S0,S0,X0,A1,X1"                  # two shell requests used to decrement twice
     yield "c14.script 1 T0,T1,H0,H1,X0,X1"                  # connects overlapping their handshakes used to exceed the limit
+    # a peer that connects, stays silent for a long time and only then logs in keeps its slot all the while
+    yield "c14.script 2 T0,T1,W11000,H0,H1,A2,X0,X1,X2"
+    if tier == "thorough":
+        yield "c14.script 1 T0,W31000,H0,A1,X0,X1"
+        yield "c14.script 3 A0,T1,W16000,S0,H1,T2,X0,X1,X2"
     for _ in range(budget):
         mx = rng.choice([1, 2, 3])
         n = rng.choice([2, 3, 5, 7])
@@ -47,7 +52,12 @@ def _oracle(case, s):
     mx = int(case.split(" ")[1])
     obs, final = s.split(";final=")
     vals = [int(o.split("/")[0]) for o in obs.split(",")]
-    return ("bounded" if max(vals) <= mx and min(vals) >= 0 else "OUT-OF-BOUNDS") + ";final=" + final
+    held = [int(o.split("/")[2]) for o in obs.split(",") if o.count("/") >= 2]
+    if max(vals) > mx or min(vals) < 0 or (held and max(held) > mx):
+        return "OUT-OF-BOUNDS;final=" + final
+    if any(int(o.split("/")[0]) != int(o.split("/")[2]) for o in obs.split(",") if o.count("/") >= 2):
+        return "COUNTER-IS-NOT-THE-NUMBER-OF-OPEN-CONNECTIONS;final=" + final
+    return "bounded;final=" + final
 
 
 PROJ = {"c14.script": _oracle}
